@@ -109,7 +109,7 @@ TEMPLATES = {
     "flag": "== h ==",
 }
 DOCS = [
-    "plain", "{{a}}", "{{a|1}}{{b|2|x=3}}", "{{missing|1}}", "{{self}}", "{{p1}}", "{{#if:x|{{a}}|b}}", "{{#expr:1+}}",
+    "plain", "{{ovr|x}}{{Ovr2}}", "{{a}}", "{{a|1}}{{b|2|x=3}}", "{{missing|1}}", "{{self}}", "{{p1}}", "{{#if:x|{{a}}|b}}", "{{#expr:1+}}",
     "{{#switch:a|a=1|b=2}}", "{{#invoke:m|f|1}}", "{{#invoke:m|e}}", "{{#invoke:m|pp}}", "{{#invoke:m|et}}", "{{#invoke:m|tag}}",
     "{{#invoke:m}}", "{{#invoke:nomod|f}}", "{{inv|z}}", "{{deep|k}}", "{{{arg|def}}}", "{{{arg}}}", "[[link|{{a}}]] [http://x {{a}}]",
     "<nowiki>{{a}}</nowiki>", "{{a|{{#invoke:m|f}}}}", "{{ {{a}} }}", "{{lc:ABC}}{{PAGENAME}}", "{{#tag:span|x}}",
@@ -136,6 +136,11 @@ def _docs():
     for n in ["a", "empty", "args", "inv", "redir"]:
         for a in ARGSETS[4:]:
             yield "{{" + n + a + "}}"
+    for n in ["ovr", "Ovr2"]:
+        for a in ARGSETS[:4]:
+            yield "{{" + n + a + "}}"
+        for w in WRAPS[1:3]:
+            yield w.replace("%s", "{{" + n + "|x}}")
 
 
 def _option_sets():
@@ -164,6 +169,8 @@ def make_ctx():
         ctx.add_page("Template:" + n, 10, redirect_to=tgt)
     ctx.add_page("Template:flag", 10, TEMPLATES["flag"], need_pre_expand=True)
     ctx.db_conn.commit()
+    # the constructor option template_override_funcs (round 8): calls of these names never reach the template branch
+    ctx.template_override_funcs = {"ovr": lambda args: "OVR(" + "|".join(args[1:]) + ")", "Ovr2": lambda args: ""}
     return ctx
 
 
